@@ -207,6 +207,9 @@ def run(ctx):
     starts = ["data", "data", "data", "rcdata", "rawtext", "script", "plaintext"]
     forced = [(d, "data", None, True) for d in ("<!--\x00->x-->y", "<!---\x00>x-->y", "<![CDATA[a\x00b]]>", "<!--\x00", "<!---\x00-->", "<![CDATA[\x00")]
     forced += boundary_inputs()
+    from . import c14          # (c14 imports this module; imported here to avoid the cycle)
+    from html.entities import html5 as _H5
+    forced += c14.longer_name_inputs(sorted(_H5))      # legacy names running into the prefix of a longer name, in all contexts
     ctx.notes["boundary_inputs"] = len(forced)
     docs = [f[0] for f in forced] + docs
     for i, d in enumerate(docs):
